@@ -178,6 +178,9 @@ pub struct Obs {
     pub bal: Vec<u128>,
     pub supply: u128,
     pub foreign_bal: Vec<u128>,
+    /// (delegator, validator) -> rewards as told by `StakeKeeper::get_rewards` (None = no stake
+    /// entry); unlike the Delegation query this also answers while the delegation shows 0 tokens
+    pub keeper_rewards: BTreeMap<(u8, u8), Option<u128>>,
 }
 
 /// Queries everything the staking properties talk about. Any panic / error is returned as Err.
@@ -198,6 +201,11 @@ fn observe(app: &SApp, nm: &Names) -> Result<Obs, String> {
                     o.deleg.insert((di as u8, vi as u8), 0);
                     o.pending.insert((di as u8, vi as u8), 0);
                 }
+            }
+            for (vi, v) in nm.validators.iter().take(2).enumerate() {
+                let block = app.block_info();
+                let r = app.read_module(|router, _, storage| router.staking.get_rewards(storage, &block, &Addr::unchecked(d.clone()), v)).map_err(|e| format!("get_rewards failed: {}", e))?;
+                o.keeper_rewards.insert((di as u8, vi as u8), r.map(|c| c.amount.u128()));
             }
             let all = app.wrap().query_all_delegations(d.clone()).map_err(|e| format!("AllDelegations query failed: {}", e))?;
             let mut m = BTreeMap::new();
@@ -632,6 +640,15 @@ pub fn step(app: &mut SApp, nm: &Names, st: &SState, op: &SOp, cfg: &Cfg, ops_al
                 for d in 0..nm.delegators.len() as u8 {
                     if post.deleg[&(d, *v)] > 0 && post.pending[&(d, *v)] != pre.pending[&(d, *v)] {
                         report("slash-changed-accrued-rewards", case("slashing leaves already accrued rewards unchanged", json!({"pair": format!("d{} v{}", d + 1, v + 1), "before": pre.pending[&(d, *v)].to_string(), "after": post.pending[&(d, *v)].to_string()})));
+                    }
+                }
+                // ... also where the remaining delegation shows 0 tokens: a slash by less than one keeps
+                // the (sub-token) stake entry and whatever has accrued on it
+                if *pct < 100 {
+                    for d in 0..nm.delegators.len() as u8 {
+                        if pre.keeper_rewards[&(d, *v)].is_some() && post.keeper_rewards[&(d, *v)] != pre.keeper_rewards[&(d, *v)] {
+                            report("slash-changed-accrued-rewards", case("slashing by less than one leaves already accrued rewards unchanged (StakeKeeper::get_rewards)", json!({"pair": format!("d{} v{}", d + 1, v + 1), "before": format!("{:?}", pre.keeper_rewards[&(d, *v)]), "after": format!("{:?}", post.keeper_rewards[&(d, *v)]), "delegation_shown_after": post.deleg[&(d, *v)].to_string()})));
+                        }
                     }
                 }
                 if post.bal != pre.bal || post.supply != pre.supply {
